@@ -7,7 +7,7 @@ Op vocabulary (positional arguments first, `o=<slot>` selects the array, default
   get_at i | get_last | index_of v | contains v | contains_value v | size | capacity | map | reduce r0
   sort | sort_mod
   it_new | it_next | it_remove | it_add v | it_replace v | it_index
-  zit_new o=<k> p=<j> | zit_next | zit_remove | zit_add v w | zit_replace v w | zit_index
+  zit_new o=<k> p=<j> (p = k allowed: the same array on both sides) | zit_next | zit_remove | zit_add v w | zit_replace v w | zit_index
   mk_sub b e to=<k> | mk_copy_shallow to=<k> | mk_copy_deep to=<k> | mk_filter to=<k>
   drop o=<k> | destroy | destroy_cb
 
@@ -76,6 +76,8 @@ class ArrayGen:
                         out.append([f"new cap={cap} exp={ex}"] + list(seq) + tail + ["destroy"])
         out.append(["new_default", "add 1", "add 2", "remove_last", "get_last", "destroy_cb"])
         out.append(["new cap=0 exp=2", "destroy"])
+        if focus in ("iter", "growth", "all"):
+            out += self.same_array_zips()
         if focus in ("reject", "all"):
             # capacities whose byte size is absurd or wraps (A9): 2^61-1 is refused by the allocator,
             # 2^61 and above are invalid
@@ -87,6 +89,30 @@ class ArrayGen:
                 out.append([f"new cap={cap} exp={ex}"] + [f"add {i}" for i in range(1, cap + 2)] +
                            ["add_at 9 0", "it_new", "it_next", "it_add 8", "remove_last", "add 7", "destroy"])
         out.append(["new cap=2", "add 1", "add 2", "add 3", "destroy_cb"])
+        return out
+
+    def same_array_zips(self):
+        """zip iterator with the same array on both sides, at capacities 1-4 with exactly 0 or 1 free
+        slots (by construction, and after a trim): every call acts twice on one object, so `zit_add`
+        needs two slots and the second inner `add_at` must re-check the room"""
+        out = []
+        progs = [["zit_add 7 8", "zit_next", "zit_add 9 10", "zit_index", "zit_next", "zit_remove", "zit_next", "zit_replace 5 6"],
+                 ["zit_next", "zit_add 7 8", "zit_add 9 10", "zit_next", "zit_next", "zit_remove", "zit_remove", "zit_next"],
+                 ["zit_next", "zit_next", "zit_add 7 8", "zit_remove", "zit_add 9 10", "zit_replace 5 6", "zit_next", "zit_next", "zit_remove"],
+                 ["zit_next", "zit_remove", "zit_add 7 8", "zit_next", "zit_next", "zit_next", "zit_remove", "zit_index"]]
+        tail = ["get_last", "capacity", "add 3", "map", "destroy"]
+        for cap in (1, 2, 3, 4):
+            for ex in ("2", "1.5", "1.1"):
+                for nfill in sorted({max(cap - 1, 0), cap}):
+                    fill = [f"add {i + 1}" for i in range(nfill)]
+                    for pr in progs:
+                        out.append([f"new cap={cap} exp={ex}"] + fill + ["zit_new o=0 p=0"] + pr + tail)
+        for n in (1, 2, 3, 5):
+            for ex in ("2", "1.5"):
+                for extra in ([], ["add 9"]):
+                    fill = [f"add {i + 1}" for i in range(n)]
+                    for pr in progs[:2]:
+                        out.append([f"new cap=8 exp={ex}"] + fill + ["trim_capacity"] + extra + ["zit_new o=0 p=0"] + pr + tail)
         return out
 
     # ------------------------------------------------------------------ random
@@ -127,7 +153,7 @@ class ArrayGen:
         if focus in ("sort", "all"):
             extra += [("sort", 4), ("sort_mod", 4)]
         if focus in ("iter", "all"):
-            extra += [("iter_prog", 6), ("zip_prog", 3)]
+            extra += [("iter_prog", 6), ("zip_prog", 3), ("zip_same_prog", 0.35)]
         if focus in ("derived", "all"):
             extra += [("mk", 6), ("drop", 1.5), ("other", 10)]
         if focus == "fault":
@@ -135,6 +161,7 @@ class ArrayGen:
             extra = [("mk", 5), ("drop", 2), ("other", 4), ("iter_add_prog", 3), ("zip_add_prog", 2)]
         if focus == "growth":
             core = [("add", 30), ("add_at", 6), ("remove_last", 3), ("trim_capacity", 1.5), ("remove_at", 1), ("capacity", 1)]
+            extra += [("zip_same_prog", 0.08)]
         if focus == "reject":
             core = [(o, w) for o, w in core if o not in ("map", "reduce", "size", "capacity", "contains", "contains_value")]
             extra = [("mk_sub_bad", 4), ("drop", 1)]
@@ -250,6 +277,35 @@ class ArrayGen:
                         v = pick_value(rng); ops.append(f"it_add {v}"); xs.insert(pos, v); pos += 1
                     if rng.random() < 0.2: ops.append("it_index")
                     if rng.random() < 0.08 or len(ops) > length + 40:
+                        break
+            elif op == "zip_same_prog":
+                # the same array on both sides of the zip iterator: every call acts twice on one object
+                k = rng.choice(sorted(L)); xs = L[k]
+                if rng.random() < 0.4:
+                    ops.append("trim_capacity" + (f" o={k}" if k else ""))      # exactly full: 0 free slots
+                    if rng.random() < 0.5:
+                        v = pick_value(rng); ops.append(f"add {v}" + (f" o={k}" if k else "")); xs.append(v)
+                ops.append(f"zit_new o={k} p={k}")
+                pos = 0
+                if rng.random() < 0.3:
+                    v, w = pick_value(rng), pick_value(rng); ops.append(f"zit_add {v} {w}"); xs.insert(0, v); xs.insert(0, w); pos = 1
+                while True:
+                    ops.append("zit_next")
+                    if pos >= len(xs):
+                        break
+                    pos += 1
+                    if rng.random() < 0.3: ops.append("zit_index")
+                    if rng.random() < 0.25:
+                        v, w = pick_value(rng), pick_value(rng); ops.append(f"zit_replace {v} {w}"); xs[pos - 1] = w
+                    r = rng.random()
+                    if r < 0.25:
+                        ops.append("zit_remove"); pos -= 1; del xs[pos]
+                        if pos < len(xs): del xs[pos]
+                        if rng.random() < 0.1: ops.append("zit_remove")
+                    elif r < 0.6:
+                        v, w = pick_value(rng), pick_value(rng); ops.append(f"zit_add {v} {w}")
+                        xs.insert(pos, v); xs.insert(pos, w); pos += 1
+                    if rng.random() < 0.1 or len(ops) > length + 40:
                         break
             elif op in ("zip_prog", "zip_add_prog"):
                 if len(L) < 2:
